@@ -76,8 +76,13 @@ class FileWriter(BaseWriter):
 
         should_close = isinstance(self._output, str)
 
-        if should_close and self._file is not None:
-            self._file.close()
+        if self._file is not None:
+            if should_close:
+                self._file.close()
+            elif not getattr(self._file, "closed", False):
+                # Not ours to close, but do not leave lines behind
+                # in a buffer that nobody will flush on our behalf
+                self._file.flush()
 
         self._file = None
 
